@@ -63,6 +63,11 @@ def query_payloads():
     base = sel([col("a"), col("b")], [tn("t1")])
     out = [("union_nulls2", ("setop", "UNION", False, base, sel([NULL, NULL], [tn("t2")])), ("UNION_BASED", "HIGH")),
            ("union_all_nulls3", ("setop", "UNION", True, sel([col("a"), col("b"), col("c")], [tn("t1")]), sel([NULL, NULL, NULL], [])), ("UNION_BASED", "HIGH"))]
+    # both documented probes in ONE operand: NULL padding (HIGH) and a system table (CRITICAL) — each keeps its finding
+    for t in ["information_schema.columns", "pg_shadow", "Mysql.User"]:
+        q = ("setop", "UNION", False, base, sel([NULL, NULL], [tn(t)]))
+        out.append(("union_nulls+sys_" + t + "_crit", q, ("UNION_BASED", "CRITICAL")))
+        out.append(("union_nulls+sys_" + t + "_high", q, ("UNION_BASED", "HIGH")))
     for t in ["pg_catalog.pg_tables", "information_schema.columns", "mysql.user", "sqlite_master", "sys.objects", "pg_shadow", "PG_CATALOG.pg_class"]:
         out.append(("union_sys_" + t, ("setop", "UNION", False, base, sel([col("a"), col("b")], [tn(t)])), ("UNION_BASED", "CRITICAL")))
     return out
